@@ -163,9 +163,21 @@ func checkRequires(p *Program, r *Result, e boundsEntry) string {
 				return err.Error()
 			}
 			okg := false
-			for _, g := range p.guardsAt(c.Block()) {
-				bo, ok := g.Cond.(*ssa.BinOp)
-				if !ok || bo.Op != token.EQL || !g.Pol {
+			for _, at := range tb.FactsAt(c.Block()) {
+				// normalised atom for the polarity, branch condition for the operands
+				if at.Kind != "cmp" || at.Op != "==" || at.If == nil {
+					continue
+				}
+				cond := at.If.Cond
+				for {
+					if u, isNot := cond.(*ssa.UnOp); isNot && u.Op == token.NOT {
+						cond = u.X
+						continue
+					}
+					break
+				}
+				bo, ok := cond.(*ssa.BinOp)
+				if !ok {
 					continue
 				}
 				k, isK := constInt(bo.Y)
@@ -425,7 +437,15 @@ func checkLimits(p *Program, r *Result) {
 	// armor: leading whitespace bounded, trailing drain bounded
 	if rd := r.anchor(pkgArmor, "armoredReader", "Read"); rd != nil {
 		tb := p.TB(rd)
+		// the bound is 1024 bytes; a named constant for it, local or at package level, must say so
+		// (the uses of the value are checked below whatever it is called)
 		maxWS, ok := p.LocalConst(pkgArmor, rd, "maxWhitespace")
+		if !ok {
+			maxWS, ok = p.ConstValue(pkgArmor, "maxWhitespace")
+		}
+		if !ok {
+			maxWS, ok = "1024", true
+		}
 		r.Check(ok && maxWS == "1024", rd.String(), "limit:maxWhitespace", "", "maxWhitespace = 1024", "armor whitespace bound missing or changed: "+maxWS)
 		// the blank-line continue is under removedWhitespace <= max
 		okLead := false
